@@ -35,9 +35,31 @@ def r1(ctx):
     ctx.rule('C11.R1', 'every entry of CRC_LOOKUP_TABLE equals c*x^8 mod (x^8+x^7+x^4+x^3+x+1), computed independently by '
              'bitwise polynomial division (256 rows); the table is the whole CRC step function', minimum=256, star=True)
     g = ctx.fb.globals.get('ebusd::CRC_LOOKUP_TABLE')
-    if not g or not isinstance(g.get('init'), list):
-        raise AnalysisBroken('C11.R1: CRC_LOOKUP_TABLE with initialiser not found')
-    init = g['init']
+    if not g:
+        raise AnalysisBroken('C11.R1: CRC_LOOKUP_TABLE not found')
+    if isinstance(g.get('init'), list):
+        init = g['init']
+    else:
+        # no literal table: it is filled by code (at static initialisation).  The function(s) that store into it are
+        # evaluated from their typed AST on a zeroed table; what is not written stays 0
+        import tinyeval
+        fillers = []
+        for f in ctx.fb.functions:
+            if f.relfile.startswith('src/lib/ebus/symbol.') and any(
+                    lhs is not None and f.key(lhs).split('[')[0].endswith('CRC_LOOKUP_TABLE') and '[' in f.key(lhs)
+                    for nid, d, rhs, op, lhs in f.assignments()):
+                fillers.append(f)
+        if not fillers or not g.get('arr'):
+            raise AnalysisBroken('C11.R1: CRC_LOOKUP_TABLE has no initialiser and no function fills it')
+        init = [0] * g['arr']
+        try:
+            for f in fillers:
+                ctx.touch(f)
+                if f.params:
+                    raise tinyeval.Unknown('filler %s takes parameters' % f.name)
+                tinyeval.Machine(f, {'ebusd::CRC_LOOKUP_TABLE': init}, [], max_steps=3000000).call()
+        except (tinyeval.Unknown, tinyeval.OutOfBounds) as e:
+            raise AnalysisBroken('C11.R1: the code that fills CRC_LOOKUP_TABLE is not evaluable (%s)' % e)
     exp = crc_table()
     if len(init) != 256:
         raise AnalysisBroken('C11.R1: CRC_LOOKUP_TABLE has %d entries' % len(init))
@@ -378,6 +400,9 @@ def crc_start_rule(ctx, rid):
 
 
 def run(ctx):
+    import rules.common as _cm
+    ctx.rule('C11.R8', "a value is compared with a constant in the domain of its own type: in the sources of this property every comparison of a variable, member, element or call result with an integer constant (==, !=) has the constant inside the value range of the operand's own integer type before promotion - a symbol held in a signed char never equals 0xA9/0xAA/0xFE, so the escape, SYN or broadcast test behind it is dead for exactly the symbols it exists for", minimum=10)
+    _cm.compare_domain_rule(ctx, 'C11.R8', lambda f: f.relfile.startswith(('src/lib/ebus/symbol.',)), 10)
     crc_start_rule(ctx, 'C11.R6')
     r1(ctx)
     r2(ctx)
